@@ -262,23 +262,118 @@ Proof.
   - right. now apply existsb_root_eqb_In.
 Qed.
 
-(* the whole-plugin round: the C03 clauses (JudgeSoundC03P.round_P) on the composed round + agreed roots *)
+(* ---------- liveness, the round-level steps: C04_liveness_round_partial (7.) split into its two rounds ---------- *)
+(* the selecting round of 7. with an arbitrary outcome o in the place of get_outcome: hypotheses verbatim *)
+Definition live_select_P (n : N) (prev : outcome) (co : option cons) (o : outcome) : Prop :=
+  forall c k off on, co = Some c -> next_state (o_type prev) = Selecting ->
+    NoDup (map fst (c_off c)) -> (forall k m, alookup k (c_on c) = Some m -> u64 m) -> (1 <= n)%N ->
+    In (k, off) (c_off c) -> alookup k (c_on c) = Some on -> (off <= on)%N ->
+    o_type o = T_selected /\ In (k, (off, N.min on (off + n - 1))) (o_ranges o).
+(* the building round of 7. (not an RMN retry; no bundle: the query of this sink never has one) *)
+Definition live_build_P (prev : outcome) (retry : bool) (co : option cons) (o : outcome) : Prop :=
+  forall c r, co = Some c -> next_state (o_type prev) = Building -> retry = false -> In r (c_roots c) ->
+    o_type o = T_generated /\ In r (o_roots o).
+
+Lemma u64_allb_iff (on : list (N * N)) :
+  forallb (fun e : N * N => match alookup (fst e) on with Some m => u64b m | None => true end) on = true <->
+  (forall k m, alookup k on = Some m -> u64 m).
+Proof.
+  rewrite forallb_forall. split.
+  - intros H k m Hk. specialize (H (k, m) (alookup_In _ _ _ Hk)). cbn [fst] in H. rewrite Hk in H.
+    unfold u64b in H. now apply N.ltb_lt in H.
+  - intros H [k m0] _. cbn [fst]. destruct (alookup k on) as [m|] eqn:E; [|reflexivity].
+    unfold u64b. apply N.ltb_lt. exact (H k m E).
+Qed.
+Lemma existsb_cr_eqb_In x l : existsb (cr_eqb x) l = true <-> In x l.
+Proof.
+  rewrite existsb_exists. split.
+  - intros [y [Hy E]]. apply cr_eqb_eq in E. now subst.
+  - intros H. exists x. split; [exact H|apply cr_eqb_refl].
+Qed.
+
+Lemma rd_live_ok_sound n prev retry co o :
+  rd_live_ok n prev retry co o = true -> live_select_P n prev co o /\ live_build_P prev retry co o.
+Proof.
+  unfold rd_live_ok, live_select_P, live_build_P. intros H. split.
+  - intros c k off on -> ST ND Hu Hn Hoff Hon Hle. rewrite ST in H.
+    apply nodupb_NoDupN in ND. apply u64_allb_iff in Hu. apply N.leb_le in Hn. rewrite ND, Hu, Hn in H. cbn [andb] in H.
+    rewrite forallb_forall in H. specialize (H (k, off) Hoff). cbn [fst snd] in H. rewrite Hon in H.
+    apply N.leb_le in Hle. rewrite Hle in H. apply andb_true_iff in H. destruct H as [H1 H2].
+    split; [now apply Z.eqb_eq|now apply existsb_cr_eqb_In].
+  - intros c r -> ST -> Hr. rewrite ST in H. rewrite forallb_forall in H. specialize (H r Hr).
+    apply andb_true_iff in H. destruct H as [H1 H2]. split; [now apply Z.eqb_eq|now apply existsb_root_eqb_In].
+Qed.
+
+(* (a): at the model's outcome the clauses are C04_liveness_round_partial (select_then_build_reports) *)
+Lemma rd_live_model_passes max n prev retry co :
+  rd_live_ok n prev retry co (get_outcome max n prev (mkQuery retry None) co) = true.
+Proof.
+  unfold rd_live_ok. destruct co as [c|]; [|reflexivity].
+  destruct (next_state (o_type prev)) eqn:ST; [| |reflexivity].
+  - destruct (nodupb N.eqb (map fst (c_off c)) &&
+              forallb (fun e : N * N => match alookup (fst e) (c_on c) with Some m => u64b m | None => true end) (c_on c) &&
+              N.leb 1 n) eqn:Pre; [|reflexivity].
+    apply andb_true_iff in Pre. destruct Pre as [Pre Hn]. apply andb_true_iff in Pre. destruct Pre as [ND Hu].
+    apply nodupb_NoDupN in ND. pose proof (proj1 (u64_allb_iff (c_on c)) Hu) as Hu'. clear Hu. rename Hu' into Hu. apply N.leb_le in Hn.
+    apply forallb_forall. intros [k off] Hoff. cbn [fst snd].
+    destruct (alookup k (c_on c)) as [on|] eqn:Hon; [|reflexivity].
+    destruct (N.leb off on) eqn:Hle; [|reflexivity]. apply N.leb_le in Hle.
+    pose (r0 := (0, (0, 0), 0, 0)%N : root).
+    destruct (select_then_build_reports max n prev (mkQuery retry None) (mkQuery false None) c
+                (mkCons [r0] [] [] cfg_empty) k off on r0 ST ND Hu Hn Hoff Hon Hle eq_refl eq_refl (or_introl eq_refl))
+      as [T [R _]].
+    apply andb_true_iff. split; [now apply Z.eqb_eq|now apply existsb_cr_eqb_In].
+  - destruct retry; [reflexivity|]. apply forallb_forall. intros r Hr.
+    unfold get_outcome, get_outcome_with. rewrite ST. cbn [state_eqb q_retry andb].
+    unfold build_report. cbn [q_sigs].
+    assert (Hs : In r (sort_by root_le (c_roots c))) by (now apply sort_by_in).
+    unfold finish_report. destruct (sort_by root_le (c_roots c)) as [|x l]; [destruct Hs|].
+    cbn [o_type o_roots]. apply andb_true_iff. split; [reflexivity|now apply existsb_root_eqb_In].
+Qed.
+
+(* the whole-plugin round: the C03 clauses (JudgeSoundC03P.round_P) on the composed round + agreed roots + the
+   round-level liveness steps *)
 Definition rd_P (i : rd_in) (o : outcome) : Prop :=
   let '(F, dest, max, n, prev, retry, aos) := i in
   let r := (mkQuery retry None, round_cons F dest aos) in
-  round_P max prev r o /\ roots_agreed_P prev retry (round_cons F dest aos) o.
+  round_P max prev r o /\ roots_agreed_P prev retry (round_cons F dest aos) o /\
+  live_select_P n prev (round_cons F dest aos) o /\ live_build_P prev retry (round_cons F dest aos) o.
 
 Theorem rd_ok_sound i o : rd_ok i o = true -> rd_P i o.
 Proof.
   destruct i as [[[[[[F dest] max] n] prev] retry] aos]. unfold rd_ok, rd_P. intros H.
-  apply andb_true_iff in H. destruct H as [H1 H2]. split; [now apply step_ok_sound|now apply rd_roots_ok_sound].
+  apply andb_true_iff in H. destruct H as [H H3]. apply andb_true_iff in H. destruct H as [H1 H2].
+  split; [now apply step_ok_sound|]. split; [now apply rd_roots_ok_sound|]. now apply rd_live_ok_sound.
 Qed.
 
 Theorem rd_model_passes i : rd_ok i (rd_model i) = true.
 Proof.
-  destruct i as [[[[[[F dest] max] n] prev] retry] aos]. unfold rd_ok, rd_model. apply andb_true_iff. split.
+  destruct i as [[[[[[F dest] max] n] prev] retry] aos]. unfold rd_ok, rd_model. rewrite !andb_true_iff. repeat split.
   - exact (step_model_passes max n prev (mkQuery retry None, round_cons F dest aos)).
   - apply rd_roots_model_passes.
+  - apply rd_live_model_passes.
+Qed.
+
+(* C04_liveness_round_partial (7.) for ANY two outcomes that pass the judge in consecutive rounds (the second round's
+   previous outcome is the first round's outcome): hypotheses and conclusion verbatim, c1 / c2 being the agreed values
+   of the two rounds *)
+Theorem rd_ok_two_rounds F dest max n prev retry1 aos1 aos2 o1 o2 c1 c2 k off on r :
+  rd_ok (F, dest, max, n, prev, retry1, aos1) o1 = true ->
+  rd_ok (F, dest, max, n, o1, false, aos2) o2 = true ->
+  round_cons F dest aos1 = Some c1 -> round_cons F dest aos2 = Some c2 ->
+  next_state (o_type prev) = Selecting ->
+  NoDup (map fst (c_off c1)) -> (forall k m, alookup k (c_on c1) = Some m -> u64 m) -> (1 <= n)%N ->
+  In (k, off) (c_off c1) -> alookup k (c_on c1) = Some on -> (off <= on)%N ->
+  In r (c_roots c2) ->
+  o_type o1 = T_selected /\ In (k, (off, N.min on (off + n - 1))) (o_ranges o1) /\
+  o_type o2 = T_generated /\ In r (o_roots o2).
+Proof.
+  intros H1 H2 C1 C2 ST ND Hu Hn Hoff Hon Hle Hr.
+  apply rd_ok_sound in H1. apply rd_ok_sound in H2. cbn [rd_P] in H1, H2.
+  destruct H1 as [_ [_ [S1 _]]]. destruct H2 as [_ [_ [_ B2]]].
+  destruct (S1 c1 k off on C1 ST ND Hu Hn Hoff Hon Hle) as [T1 R1].
+  split; [exact T1|]. split; [exact R1|].
+  apply (B2 c2 r C2); [rewrite T1; reflexivity|reflexivity|exact Hr].
 Qed.
 
 (* the judge compares outcomes with outcome_eqb: agreement is equality, so every theorem about the composed round
@@ -290,6 +385,11 @@ Proof. intros H. symmetry. now apply outcome_eqb_eq. Qed.
 Definition rd_ok_before (i : rd_in) (o : outcome) : bool :=
   let '(F, dest, max, n, prev, retry, aos) := i in
   step_ok max prev (mkQuery retry None, round_cons F dest aos) o.
+(* ... and before the liveness steps were added: the C03 clauses and the agreed-roots clause only *)
+Definition rd_ok_before_live (i : rd_in) (o : outcome) : bool :=
+  let '(F, dest, max, n, prev, retry, aos) := i in
+  step_ok max prev (mkQuery retry None, round_cons F dest aos) o &&
+  rd_roots_ok prev retry (round_cons F dest aos) o.
 
 (* four oracles, F = 1, agreeing on fChain and on one root of chain 1 *)
 Definition jx_ob : CommitConsensus.obs :=
@@ -308,15 +408,57 @@ Example rd_ok_before_unsound :
   rd_ok_before jx_in o = true /\ ~ rd_P jx_in o /\ rd_ok jx_in o = false.
 Proof.
   cbv zeta. split; [vm_compute; reflexivity|]. split; [|vm_compute; reflexivity].
-  intros [_ P]. unfold roots_agreed_P in P.
+  intros [_ [P _]]. unfold roots_agreed_P in P.
   assert (C : exists c, round_cons 1 9 jx_aos = Some c /\ c_roots c = [(1, (10, 12), 7, 300)%N]).
   { eexists. split; vm_compute; reflexivity. }
   destruct C as [c [C1 C2]].
   destruct (P c (1, (10, 12), 7, 666)%N C1 (or_introl eq_refl)) as [[_ [R _]]|Hin]; [discriminate R|].
   rewrite C2 in Hin. destruct Hin as [E|[]]. discriminate E.
 Qed.
+Lemma rd_ok_stronger_live i o : rd_ok i o = true -> rd_ok_before_live i o = true.
+Proof.
+  destruct i as [[[[[[F dest] max] n] prev] retry] aos]. unfold rd_ok, rd_ok_before_live.
+  intros H. apply andb_true_iff in H. tauto.
+Qed.
 Lemma rd_ok_stronger i o : rd_ok i o = true -> rd_ok_before i o = true.
 Proof.
-  destruct i as [[[[[[F dest] max] n] prev] retry] aos]. unfold rd_ok, rd_ok_before.
-  intros H. apply andb_true_iff in H. tauto.
+  intros H. apply rd_ok_stronger_live in H.
+  destruct i as [[[[[[F dest] max] n] prev] retry] aos]. unfold rd_ok_before_live, rd_ok_before in *.
+  apply andb_true_iff in H. tauto.
+Qed.
+
+(* WITNESSES of the weakness before the liveness steps were added.
+   Selecting: the four oracles agree on next = 10 / latest = 12 for chain 1; an outcome "ranges selected" that selects
+   NOTHING passed (step_ok asks for the type only).  Building: they agree on root 300 of chain 1 over [10,12]; the EMPTY
+   outcome passed (step_ok allows it in the building state, and it carries no root to be checked).  Both violate the
+   clause of C04_liveness_round_partial, the new rd_ok rejects them and accepts the model's outcomes. *)
+Definition lx_ob : CommitConsensus.obs := mkObs [] [(1, 12)]%N [(1, 10)]%N rmn_none [(9%N, 1%Z); (1%N, 1%Z)].
+Definition lx_aos : list CommitConsensus.aobs := [(0, lx_ob); (1, lx_ob); (2, lx_ob); (3, lx_ob)]%N.
+Definition lx_sel_in : rd_in := (1%Z, 9%N, 3%N, 256%N, empty_outcome, false, lx_aos).
+Definition lx_nothing : outcome := mkOutcome T_selected [] [] [(1, 10)%N] 0 [] cfg_empty.
+Example rd_ok_before_live_weak :
+  (rd_ok_before_live lx_sel_in lx_nothing = true /\ rd_ok lx_sel_in lx_nothing = false /\ ~ rd_P lx_sel_in lx_nothing) /\
+  o_ranges (rd_model lx_sel_in) = [(1, (10, 12))%N] /\ rd_ok lx_sel_in (rd_model lx_sel_in) = true /\
+  (rd_ok_before_live jx_in empty_outcome = true /\ rd_ok jx_in empty_outcome = false /\ ~ rd_P jx_in empty_outcome).
+Proof.
+  assert (C : exists c, round_cons 1 9 lx_aos = Some c /\ c_off c = [(1, 10)%N] /\ c_on c = [(1, 12)%N]).
+  { eexists. repeat split; vm_compute; reflexivity. }
+  destruct C as [c [C1 [C2 C3]]].
+  split; [|split; [vm_compute; reflexivity|split; [vm_compute; reflexivity|]]].
+  - split; [vm_compute; reflexivity|]. split; [vm_compute; reflexivity|].
+    intros [_ [_ [S _]]]. unfold live_select_P in S.
+    destruct (S c 1%N 10%N 12%N C1 eq_refl) as [_ Hin].
+    + rewrite C2. repeat constructor. intros [].
+    + rewrite C3. intros k m Hk. cbn [alookup] in Hk. destruct (N.eqb k 1); [|discriminate]. inversion Hk. vm_compute. reflexivity.
+    + lia.
+    + rewrite C2. now left.
+    + rewrite C3. reflexivity.
+    + lia.
+    + exact Hin.
+  - split; [vm_compute; reflexivity|]. split; [vm_compute; reflexivity|].
+    intros [_ [_ [_ B]]]. unfold live_build_P in B.
+    assert (D : exists c, round_cons 1 9 jx_aos = Some c /\ c_roots c = [(1, (10, 12), 7, 300)%N]).
+    { eexists. split; vm_compute; reflexivity. }
+    destruct D as [d [D1 D2]].
+    destruct (B d (1, (10, 12), 7, 300)%N D1 eq_refl eq_refl) as [T _]; [rewrite D2; now left|]. discriminate T.
 Qed.
